@@ -64,6 +64,10 @@ class Ctx:
         self.shape = []          # extra parts of the distinct-case digest
         self.sample = None
         self.notes = {}
+        self.tags = set()        # 'kind:value' strings; the driver reports the number of distinct values per kind
+
+    def tag(self, kind, value):
+        self.tags.add(f'{kind}:{value}')
 
     def count(self, name, k=1):
         self.counts[name] = self.counts.get(name, 0) + k
